@@ -19,8 +19,14 @@ pub struct TCell {
 }
 
 impl TCell {
+    /// no visible text (a nested table of empty cells renders nothing)
     pub fn is_empty(&self) -> bool {
-        self.words.is_empty() && self.nested.is_none()
+        self.words.is_empty()
+            && self
+                .nested
+                .as_ref()
+                .map(|n| n.all_text().is_empty())
+                .unwrap_or(true)
     }
     /// the cell's own text, words concatenated
     pub fn text(&self) -> String {
